@@ -36,7 +36,8 @@ from fcv import vtkcomp_p5d as vtkcomp
 from fcv.predio import NP_DT
 
 KINDS = ("image", "rect", "struct")
-VTK_DT = {"f64": "Float64", "f32": "Float32", "i32": "Int32", "i64": "Int64"}
+VTK_DT = {"f64": "Float64", "f32": "Float32", "i32": "Int32", "i64": "Int64", "i8": "Int8", "i16": "Int16", "u8": "UInt8",
+          "u16": "UInt16", "u32": "UInt32", "u64": "UInt64"}
 MIO_TYPE = {"VERTEX": "vertex", "LINE": "line", "TRIANGLE": "triangle", "QUAD": "quad", "TETRA": "tetra",
             "HEXAHEDRON": "hexahedron", "PYRAMID": "pyramid", "WEDGE": "wedge", "PIXEL": "pixel", "POLYGON": "polygon"}
 FC_TYPE = {v: k for k, v in MIO_TYPE.items()}
@@ -737,7 +738,13 @@ def check_grid_files(ctx, grid, tmp, lean_lines, pending, with_meshio=False):
             write_vtr(base + ".vtr", grid)
         elif fmt == "vts":
             write_vts(base + ".vts", grid)
-        path = base + "." + fmt if fmt != "vtu" else write_vtu(base, grid)
+        try:
+            path = base + "." + fmt if fmt != "vtu" else write_vtu(base, grid)
+        except Exception as e:  # noqa: BLE001   (fieldcompare.io.write refused the explicit description of the grid)
+            ctx.case(("file", fmt, grid_key(grid), tuple(grid["lo"]), "write-raised"), nontrivial=True, tags=[f"fmt-{fmt}", "write-raised"])
+            ctx.violation(case, f"raise:{type(e).__name__}:{e}"[:300], _short([specP, specC]), cls=None,
+                          what=f".{fmt} file of the grid could not be written by fieldcompare.io.write")
+            continue
         fobj, lm = impl_read(path)
         os.remove(path)
         if grid.get("inexact"):
@@ -1085,6 +1092,201 @@ def check_meshio_table(ctx):
     assert meshio_to_vtk_type["quad"] == 9
 
 
+# ------------------------------------------------------------------------------------------------ phase 6 (G1/io): directed batch
+# Dimensions of the quantifier sampled at one point only by the generators above:
+#   * numeric types / row shapes of the fields: f64 f32 i32 i64, scalar or 3-vector -> every VTK numeric type, 9-component and
+#     3x3 rows, on points AND cells, in every XML container a grid admits (meshio-backed formats keep the old types: meshio's own
+#     writers/readers reject narrow integers in .xdmf/XML and tensors in legacy .vtk, binary .vtk does not round-trip at all);
+#   * spacings: positive, 1/4 .. 4 -> negative (a reflected lattice), 2^-20 / 2^-30 (tiny), 2^20 (huge), mixed per axis;
+#   * size: <= 1000 points -> one lattice of > 65536 points per run (every coordinate plane, 1-d along every axis, 3-d), compared
+#     with numpy against the lattice the case describes (points, cells after pixel/voxel normalisation, field values, dtypes)
+#     and pairwise with the default comparison;
+#   * repetition: a file read again after another file (of the same and of another format) was read.
+# (a), (b) go through check_grid_files (oracle + Lean model where hyp holds); the large lattices and the repetition cases are
+# search only.  FCV_P6G_OFF=1 switches the batch off (used to show that a mutant is seen by this batch only).
+P6G_OFF = os.environ.get("FCV_P6G_OFF") == "1"
+P6_DTS = ("u8", "i8", "i16", "u16", "u32", "u64", "f32", "i32", "i64", "f64")
+P6_LARGE = [(300, 220, 0), (0, 260, 255), (255, 0, 260), (40, 40, 40), (70000, 0, 0), (0, 70000, 0), (0, 0, 70000)]
+P6_SPACINGS = [([-1.0, 0.5, 2.0], [0.5, -1.0, 2.0]), ([0.5, -0.25, -2.0], [1.0, 2.0, 3.0]), ([2.0 ** -20] * 3, [0.0, 0.0, 0.0]),
+               ([2.0 ** -20] * 3, [1.0, 1.0, 1.0]), ([2.0 ** 20, 2.0 ** 18, 2.0 ** 19], [-2.0 ** 22, 0.0, 2.0 ** 21]),
+               ([2.0 ** -30, 1.0, 2.0 ** 20], [0.0, 0.0, 0.0]), ([-2.0 ** -10, -1.0, -2.0 ** 10], [3.0, -3.0, 0.5])]
+
+
+def p6_fields(rng, grid, dts, tails):
+    """one point and one cell field per (dtype, row shape); pairwise distinct values (8-bit types: wrapped into range)"""
+    npnt = len(grid["pts"])
+    ncell = 1
+    for e in grid["ext"]:
+        ncell *= max(e, 1)
+    grid["pf"], grid["cf"] = [], []
+    for k, (dt, tail) in enumerate(zip(dts, tails)):
+        wrap = {"u8": 251, "i8": 127}.get(dt)
+
+        def vals(n):
+            v = meshgen._distinct_values(rng, dt, n * _rs(tail))
+            return [x % wrap for x in v] if wrap else v
+        grid["pf"].append({"name": f"p{k}", "dt": dt, "tail": list(tail), "v": vals(npnt)})
+        grid["cf"].append({"name": f"c{k}", "dt": dt, "tail": list(tail), "v": vals(ncell)})
+    return grid
+
+
+def p6_spacing_grid(ext, spacing, origin):
+    neg = min(spacing) < 0
+    g = {"ext": list(ext), "family": "affine" if neg else "axis", "lo": [0, 0, 0], "origin": list(origin), "spacing": list(spacing),
+         "basis": [[1.0, 0.0, 0.0], [0.0, 1.0, 0.0], [0.0, 0.0, 1.0]], "basis_kind": "identity", "direction_attr": False}
+    g["pts"] = image_points(ext, origin, spacing, g["basis"])
+    if not neg:
+        g["ords"] = [[_exact(Fraction(origin[d]) + Fraction(spacing[d]) * i) for i in range(ext[d] + 1)] for d in range(3)]
+    return g
+
+
+def p6_large_arrays(ext, origin, spacing):
+    n = [e + 1 for e in ext]
+    npnt = n[0] * n[1] * n[2]
+    ii = np.arange(npnt)
+    ijk = np.stack([ii % n[0], (ii // n[0]) % n[1], ii // (n[0] * n[1])], axis=1)
+    pts = np.array(origin, dtype=float)[None, :] + np.array(spacing, dtype=float)[None, :] * ijk
+    ncell = max(ext[0], 1) * max(ext[1], 1) * max(ext[2], 1)
+    return pts, 3.0 + 0.5 * ii, (7 + 3 * np.arange(ncell)).astype(np.int32)
+
+
+def p6_large_case(ctx, case, tmp):
+    """case = {"op": "large-grid", "ext", "origin", "spacing", "formats"}: dyadic origin / spacing (every coordinate exact)"""
+    ext, fmts = case["ext"], case["formats"]
+    pts, pv, cv = p6_large_arrays(ext, case["origin"], case["spacing"])
+    grid = {"ext": list(ext), "family": "axis", "lo": [0, 0, 0], "origin": case["origin"], "spacing": case["spacing"],
+            "basis": [[1.0, 0.0, 0.0], [0.0, 1.0, 0.0], [0.0, 0.0, 1.0]], "basis_kind": "identity", "direction_attr": False,
+            "pts": pts.tolist(), "ords": [[case["origin"][d] + case["spacing"][d] * i for i in range(ext[d] + 1)] for d in range(3)],
+            "pf": [{"name": "p", "dt": "f64", "tail": [], "v": pv.tolist()}], "cf": [{"name": "c", "dt": "i32", "tail": [], "v": cv.tolist()}]}
+    t, rows = lattice_cells(ext)
+    rows = np.array(rows, dtype=np.int64)
+    objs, problems = [], {}
+    for fmt in fmts:
+        base = os.path.join(tmp, f"large_{fmt}")
+        if fmt == "vtu":
+            path = write_vtu(base, grid)
+        else:
+            path = base + "." + fmt
+            XML_WRITERS[fmt](path, grid)
+        bad = []
+        try:
+            from fieldcompare.io import read_field_data
+            with _quiet():
+                f = read_field_data(path)
+                dom = f.domain
+                p = np.asarray(dom.points)
+                if p.shape != pts.shape or not np.array_equal(p, pts):
+                    bad.append("points")
+                cts = list(dom.cell_types)
+                if len(cts) != 1:
+                    bad.append(f"cell types {[c.name for c in cts]}")
+                else:
+                    conn = np.asarray(dom.connectivity(cts[0])).astype(np.int64)
+                    if cts[0].name in ("PIXEL", "VOXEL"):
+                        conn = conn[:, [0, 1, 3, 2] if cts[0].name == "PIXEL" else [0, 1, 3, 2, 4, 5, 7, 6]]
+                    name = {"PIXEL": "QUAD", "VOXEL": "HEXAHEDRON"}.get(cts[0].name, cts[0].name)
+                    if name != t or conn.shape != rows.shape or not np.array_equal(conn, rows):
+                        bad.append("cells")
+                pfs = {x.name: np.asarray(x.values) for x in f.point_fields}
+                cfs = {x.name: np.asarray(x.values) for x in f.cell_fields}
+                if sorted(pfs) != ["p"] or pfs["p"].dtype != np.float64 or not np.array_equal(pfs["p"], pv):
+                    bad.append("point field")
+                if len(cfs) != 1 or list(cfs.values())[0].dtype != np.int32 or not np.array_equal(list(cfs.values())[0], cv):
+                    bad.append("cell field")
+            objs.append((fmt, f))
+        except Exception as e:  # noqa: BLE001
+            bad.append(f"raise:{type(e).__name__}:{e}"[:200])
+        finally:
+            if os.path.exists(path):
+                os.remove(path)
+        if bad:
+            problems[fmt] = bad
+    for (fa, a), (fb, b) in itertools.combinations(objs, 2):
+        for x, y, nx, ny in ((a, b, fa, fb), (b, a, fb, fa)):
+            ok, detail = compare_pair(x, y)
+            if not ok:
+                problems[f"pair-{nx}-{ny}"] = detail if isinstance(detail, str) else {k: detail[k] for k in ("suite", "domain_equal")}
+    return problems
+
+
+def p6_state_case(ctx, case, tmp):
+    """case = {"op": "read-sequence", "grids": [grid, ...], "sequence": [[grid index, format], ...]}: every read of the sequence
+    must give the content of the grid its file describes (files are written before the first read)"""
+    paths, specs = {}, []
+    for gi, g in enumerate(case["grids"]):
+        grid_unit(g)
+        specs.append(list(content_strings(spec_lm(g))))
+    set_unit(*[[c for p in g["pts"] for c in p] for g in case["grids"]])
+    specs = [list(content_strings(spec_lm(g))) for g in case["grids"]]
+    for gi, fmt in {(gi, fmt) for gi, fmt in case["sequence"]}:
+        base = os.path.join(tmp, f"seq{gi}_{fmt}")
+        if fmt == "vtu":
+            paths[(gi, fmt)] = write_vtu(base, case["grids"][gi])
+        else:
+            paths[(gi, fmt)] = base + "." + fmt
+            XML_WRITERS[fmt](paths[(gi, fmt)], case["grids"][gi])
+    problems = {}
+    for step, (gi, fmt) in enumerate(case["sequence"]):
+        fobj, lm = impl_read(paths[(gi, fmt)])
+        impl = lm if isinstance(lm, str) else list(content_strings(lm))
+        if impl != specs[gi]:
+            problems[f"read {step + 1} (grid {gi}, .{fmt})"] = _short(impl)
+    for p in paths.values():
+        os.remove(p)
+    return problems
+
+
+def check_p6g1i(ctx, tmp, lean_lines, pending):
+    rng = ctx.rng
+    # (a) every numeric type, scalar / 3-vector / 9-component / 3x3 rows, points and cells, every XML container
+    fams = ["axis", "affine", "rect", "curvi"]
+    tails = [[[], [3]], [[9], [3, 3]], [[3], [9]], [[3, 3], []]]
+    for i in range(ctx.scale(20, 400)):
+        dts = (P6_DTS[i % len(P6_DTS)], P6_DTS[(i * 3 + 1) % len(P6_DTS)])
+        g = p6_fields(rng, gen_grid(rng, maxe=3, family=fams[i % 4], fields=False), dts, tails[(i // 4) % 4])
+        for dt in dts:
+            ctx.dist["p6-field-dt-" + dt] += 1
+        for tl in tails[(i // 4) % 4]:
+            ctx.dist["p6-field-row-" + ("x".join(map(str, tl)) or "scalar")] += 1
+        ctx.dist["p6g1i"] += 1
+        check_grid_files(ctx, g, tmp, lean_lines, pending)
+    settle(ctx, lean_lines, pending)
+    # (b) negative / tiny / huge spacings, every subset of flat directions over the runs
+    exts = [e for e in itertools.product((0, 2, 3), repeat=3) if any(e)]
+    s0 = rng.randrange(len(exts))
+    for i in range(ctx.scale(14, 26 * len(P6_SPACINGS))):
+        sp, org = P6_SPACINGS[i % len(P6_SPACINGS)]
+        g = p6_fields(rng, p6_spacing_grid(exts[(s0 + 5 * i) % len(exts)], sp, org), ("f64", "i32"), [[], [3]])
+        ctx.dist["p6g1i"] += 1
+        ctx.dist["p6-spacing-" + ("negative" if min(sp) < 0 else "tiny" if min(sp) < 1e-5 else "huge")] += 1
+        check_grid_files(ctx, g, tmp, lean_lines, pending)
+    settle(ctx, lean_lines, pending)
+    # (c) > 65536 points
+    pairs = [["vti", "vts"], ["vtr", "vtu"], ["vti", "vtr"], ["vts", "vtu"]]
+    s1 = rng.randrange(len(P6_LARGE))
+    for i in range(ctx.scale(1, len(P6_LARGE) * 2)):
+        ext = P6_LARGE[(s1 + i) % len(P6_LARGE)]
+        case = {"op": "large-grid", "ext": list(ext), "origin": [0.5, -1.0, 2.0], "spacing": [0.25, 0.5, 2.0],
+                "formats": pairs[(s1 + i) % 4] if ctx.tier == "quick" else ["vti", "vtr", "vts", "vtu"]}
+        problems = p6_large_case(ctx, case, tmp)
+        ctx.case(("p6large", tuple(ext), tuple(case["formats"])), nontrivial=True,
+                 tags=["p6g1i", "p6-points>65536", "zero-" + "".join(str(int(e == 0)) for e in ext)] + ["fmt-" + f for f in case["formats"]])
+        if problems:
+            ctx.violation(case, problems, "the lattice the case describes, in every format, pairwise equal",
+                          what=f"large lattice {ext}: {sorted(problems)}")
+    # (d) a file read again after other files were read
+    for i in range(ctx.scale(6, 100)):
+        ga = p6_fields(rng, gen_grid(rng, maxe=3, family="axis", fields=False), ("f64", "i32"), [[], [3]])
+        gb = p6_fields(rng, gen_grid(rng, maxe=3, family="axis", fields=False), ("f32", "i64"), [[3], []])
+        fa, fb = ["vti", "vtr", "vts", "vtu"][i % 4], ["vti", "vtr", "vts", "vtu"][(i // 2 + 1) % 4]
+        case = {"op": "read-sequence", "grids": [ga, gb], "sequence": [[0, fa], [1, fa], [0, fa], [1, fb], [0, fa], [1, fa]]}
+        problems = p6_state_case(ctx, case, tmp)
+        ctx.case(("p6seq", fa, fb, grid_key(ga), grid_key(gb)), nontrivial=True, tags=["p6g1i", "p6-read-sequence"])
+        if problems:
+            ctx.violation(case, problems, "every read gives the content of the grid its file describes",
+                          what=f"read sequence over two grids (.{fa}, .{fb}): {sorted(problems)}")
+
+
 def run(ctx):
     ctx.rule = ("cases = (grid, container format) reads, ordered (grid, class) in-memory observables, pairs of representations "
                 "compared with MeshFieldsComparator, meshio meshes through from_meshio/to_meshio; all cases are non-trivial "
@@ -1150,6 +1352,9 @@ def run(ctx):
                 continue
             check_tomio(ctx, lm, lean_lines, pending)
         settle(ctx, lean_lines, pending)
+        # (5) phase 6 (G1/io): directed batch
+        if not P6G_OFF:
+            check_p6g1i(ctx, tmp, lean_lines, pending)
         observe_degenerate(ctx)
     finally:
         shutil.rmtree(tmp, ignore_errors=True)
@@ -1219,6 +1424,13 @@ def _eval_case(case):
             return ("pass" if ok else detail), "pass"
         finally:
             shutil.rmtree(tmp, ignore_errors=True)
+    if op in ("large-grid", "read-sequence"):
+        tmp = tempfile.mkdtemp(prefix="fcv_c07_")
+        try:
+            problems = p6_large_case(None, case, tmp) if op == "large-grid" else p6_state_case(None, case, tmp)
+        finally:
+            shutil.rmtree(tmp, ignore_errors=True)
+        return (problems or "as described"), "as described"
     if op == "grid-mem":
         return norm_mesh_obs(impl_mesh(case["grid"], case["kind"])), norm_mesh_obs(spec_mesh(case["grid"], case["kind"]))
     if op == "mio":
